@@ -9,3 +9,7 @@ u, v, f = TrialFunction(V), TestFunction(V), Coefficient(V)
 L = f * v * dx(degree=1) + f * f * v * dx(degree=4)
 a = f * u * v * dx(degree=0) + f * u * v * dx(degree=3)
 forms = [L, a]
+# two different rules with the same number of points and structurally alike integrands
+g = Coefficient(V)
+c = f * v * dx(scheme="vertex") + g * v * dx(degree=2)
+forms = [L, a, c]
